@@ -55,7 +55,6 @@ Record pin_facts (p : pin) : Prop := {
   pf_name : name_ok (p_name p) = true;
   pf_vtok : token (p_version p) = true;
   pf_vcont : last_ok is_cont (p_version p) = false;
-  pf_vmiss : is_missing (p_version p) = false;
   pf_vspec : spec_ok ("==" ++ p_version p) = true;
   pf_vpin : pin_version ("==" ++ p_version p) = Ok (p_version p);
   pf_nohash : containsb "--hash=" (p_name p ++ "==" ++ p_version p ++ " ") = false;
@@ -74,11 +73,10 @@ Proof.
   apply andb_true_iff in H as [H Hvias]. apply andb_true_iff in H as [H Hvne].
   apply andb_true_iff in H as [H Hurl]. apply andb_true_iff in H as [H Hhash].
   apply andb_true_iff in H as [H Hnoh]. apply andb_true_iff in H as [H Hvpin].
-  apply andb_true_iff in H as [H Hvspec]. apply andb_true_iff in H as [H Hvmiss].
+  apply andb_true_iff in H as [H Hvspec].
   apply andb_true_iff in H as [H Hvcont]. apply andb_true_iff in H as [Hname Hvtok].
   change w_pin_eq with "==" in *. change l_hash_split with "--hash=" in *. change w_via_one with "via " in *.
   constructor; try assumption.
-  - apply negb_true_iff; assumption.
   - apply negb_true_iff; assumption.
   - destruct (pin_version ("==" ++ p_version p)) as [v|e]; [|discriminate].
     apply String.eqb_eq in Hvpin. subst v. reflexivity.
@@ -216,7 +214,7 @@ Lemma pin_lines_load o p partial rest acc :
   pin_facts p -> annot_pin_ok o p = true ->
   load_lines (List.app (map (fun l => l ++ nl) (pin_lines o p)) rest) partial acc =
     if nonempty partial then
-      match single partial with Err e => Err e | Ok r => load_lines rest (acc_text o p) (push r acc) end
+      match single true partial with Err e => Err e | Ok r => load_lines rest (acc_text o p) (push r acc) end
     else load_lines rest (acc_text o p) acc.
 Proof.
   intros F Ha. destruct (nv_facts p F) as [H1 [H2 [H3 [H4 [H5 _]]]]].
@@ -240,7 +238,7 @@ Proof.
   assert (nonempty (P0 o p) = true) as HPn by (eapply first_ok_nonempty; apply P0_first; exact F).
   unfold acc_text.
   destruct (nonempty partial).
-  - destruct (single partial) as [r|e]; [|reflexivity].
+  - destruct (single true partial) as [r|e]; [|reflexivity].
     apply cont_lines; [exact HPn|apply bodies_good; assumption].
   - apply cont_lines; [exact HPn|apply bodies_good; assumption].
 Qed.
@@ -619,7 +617,7 @@ Lemma rev_nil_inv {A} (l : list A) : rev l = [] -> l = [].
 Proof. intros H. rewrite <- (rev_involutive l), H. reflexivity. Qed.
 
 Lemma single_entry_acc o p : pin_facts p -> annot_pin_ok o p = true ->
-  single_entry (acc_text o p) =
+  single_entry true (acc_text o p) =
   Ok (Some (mkEntry (P0 o p) (hash_w o p) (map constraint_text (p_via p))
                     (match url_w o p with Some u => u | None => "" end))).
 Proof.
@@ -631,10 +629,7 @@ Proof.
   rewrite EP at 1. rewrite (req_lex_pin p _ F) by (destruct (hash_w o p); reflexivity).
   rewrite (pf_vspec p F). cbn [negb].
   destruct (wsegs_shape o p F Ha) as [s1 [rest [Ew [Hs1 [Hs2 Hc]]]]].
-  change l_via_sp with " via".
-  assert (negb (nonempty (strip (src_of (wsegs o p)))) || containsb "#" (src_of (wsegs o p))
-          || startswith (src_of (wsegs o p)) " via" = true) as ->.
-  { rewrite <- orb_assoc. rewrite Hc. apply orb_true_r. }
+  cbn [orb].
   change (mkPst false false "" []) with st0.
   pose proof (wsegs_good o p F Ha) as Hg.
   rewrite Ew in *. rewrite (parts_fold " " s1 rest eq_refl eq_refl Hs1 Hs2 Hg).
@@ -811,7 +806,7 @@ Proof.
 Qed.
 
 Lemma single_acc o p : pin_facts p -> annot_pin_ok o p = true ->
-  single (acc_text o p) = Ok (Some (erase_pin o p)).
+  single true (acc_text o p) = Ok (Some (erase_pin o p)).
 Proof.
   intros F Ha. unfold single. rewrite (single_entry_acc o p F Ha).
   unfold add_sources. cbn [e_req e_hash e_sources e_url].
@@ -833,7 +828,7 @@ Proof. intros F. unfold acc_text. apply nonempty_app_l. eapply first_ok_nonempty
 
 Lemma pins_load o ps : forall partial q acc,
   Forall pin_facts ps -> forallb (annot_pin_ok o) ps = true ->
-  (partial = "" /\ q = None \/ nonempty partial = true /\ single partial = Ok q) ->
+  (partial = "" /\ q = None \/ nonempty partial = true /\ single true partial = Ok q) ->
   load_lines (flat_map (fun p => map (fun l => l ++ nl) (pin_lines o p)) ps) partial acc =
   Ok (List.app (rev (push q acc)) (map (erase_pin o) ps)).
 Proof.
@@ -1051,14 +1046,7 @@ Proof.
     rewrite (skip_all _ _ [] Hhs), (skip_all _ _ [] Hds).
     rewrite flat_map_map_lines.
     rewrite (pins_load o v "" None [] HF Hannot (or_introl (conj eq_refl eq_refl))). reflexivity. }
-  unfold load. rewrite HL. f_equal. unfold erase.
-  clear HL. induction HF as [|p l Fp _ IH]; [reflexivity|].
-  cbn [map filter]. cbn [forallb] in *.
-  apply andb_true_iff in Hpins as [_ Hpins]. apply andb_true_iff in Hannot as [_ Hannot].
-  assert (names_sorted l = true) as Hsl.
-  { unfold names_sorted in *. cbn [sorted_by] in Hsorted. destruct l; [reflexivity|]. apply andb_true_iff in Hsorted as [_ Hsl]. exact Hsl. }
-  change (p_version (erase_pin o p)) with (p_version p). rewrite (pf_vmiss p Fp). cbn [negb]. f_equal.
-  apply IH; assumption.
+  unfold load. exact HL.
 Qed.
 
 Lemma edges_erase o v : edges (erase o v) = edges v.
